@@ -382,6 +382,10 @@ func c16Shapes(c *vocab.Counter) []vocab.Shaped {
 		mk("objval", ap.Object{ID: c.ID("o"), Type: ap.NoteType}),
 		mk("idless", &ap.Object{Type: ap.NoteType, Name: ap.DefaultNaturalLanguageValue("anonymous")}),
 		mk("typeless-idless", &ap.Object{Name: ap.DefaultNaturalLanguageValue("#tag")}),
+		// without an id it stays as it was - all of it: what it embeds in its own flattened positions is none of the outer value's business
+		mk("idless-nested", &ap.Activity{Type: ap.FollowType, Actor: &ap.Actor{ID: c.ID("np"), Type: ap.PersonType}, Object: &ap.Object{ID: c.ID("no"), Type: ap.NoteType},
+			To: ap.ItemCollection{&ap.Actor{ID: c.ID("nt"), Type: ap.PersonType}, c.ID("nt2")}}),
+		mk("idless-nested-note", &ap.Object{Type: ap.NoteType, AttributedTo: &ap.Actor{ID: c.ID("na"), Type: ap.PersonType}, To: ap.ItemCollection{&ap.Actor{ID: c.ID("nb"), Type: ap.PersonType}}}),
 		mk("link", &ap.Link{Type: ap.MentionType, Href: c.ID("h")}),
 		mk("link-id", &ap.Link{ID: c.ID("l"), Type: ap.LinkType, Href: c.ID("h")}),
 		// a nil pointer of a vocabulary type: nothing, and left as it is
